@@ -81,7 +81,7 @@ PROPS = {
         assumptions=[],
     ),
     "C08": dict(
-        units=["blockstore", "leader"],
+        units=["blockstore", "leader", "handlers"],
         level="proof",
         level_text="Deductive proof (Verus) over the real text of BlockStore::{block, try_push, update_persisted, truncate_cache}, "
                    "BlockStoreState::{contains, head, next, verify}, Last::{number, from}, Block::number, BlockNumber::{next, prev} and "
@@ -258,7 +258,7 @@ PROPS = {
         assumptions=[],
     ),
     "C18": dict(
-        units=["addrs"],
+        units=["addrs", "handlers"],
         kani=["is_newer"],
         kani_quick=True,
         level="proof",
@@ -398,7 +398,7 @@ PROPS = {
         assumptions=[],
     ),
     "C19": dict(
-        units=["fetch", "blockstore"],
+        units=["fetch", "blockstore", "handlers"],
         level="proof",
         level_text="SEQUENTIAL FRAGMENTS of the fetch queue (every clause as far as one task's code decides it). Deductive proof (Verus) over the real "
                    "text of gossip::fetch::Queue::{request, accept_block}, of the three closures that run under the queue's watch lock (lifted "
@@ -412,7 +412,10 @@ PROPS = {
                    "(BlockStoreState::contains, under contract in unit blockstore), and the entry was removed from the shared queue by this very "
                    "call in the critical section that read it (one holder at a time); acceptors are woken whenever the lowest requested block "
                    "changes; the per-call task signals completion only after a block with the REQUESTED number was accepted by queue_block, and "
-                   "performs the RPC under the configured get_block timeout (so a peer that never answers is timed out and the request returns to the queue).",
+                   "performs the RPC under the configured get_block timeout (so a peer that never answers is timed out and the request returns to the queue). "
+                   "Unit handlers: the state a connection starts from claims no block on the peer's behalf (PushServer::new), and the push_block_store_state "
+                   "handler leaves exactly the announced state in the connection's channel after every accepted announcement (also one that only raises `first`); "
+                   "the get_block handler answers a request for n with block n or nothing.",
         level_note="Not decided (A4): interleavings between requester, acceptors and per-call tasks (the spawned wait task is verified as a "
                    "function and composed in line, R-spawn), oneshot drop semantics (a dropped sender wakes the requester with Disconnected), "
                    "the fetcher task run_block_fetcher (one request per missing number, cancelled once queued). watch::send_if_modified runs "
